@@ -12,7 +12,7 @@ def check(run):
     ec.run_family_js(run, 'js-select', 'Q_C01a', 'R_2x2', maxA=2 if quick else 3)
     ec.run_family_js(run, 'js-except', 'Q_C01exc', 'R_w3N', maxA=1 if quick else 2, hdrmodes=(False, True))
     ec.run_family_js(run, 'js-order-distinct-top', 'Q_C02ok', 'R_2x2', maxA=2 if quick else 3)
-    ec.run_family_js(run, 'js-join', 'Q_C04selQ' if quick else 'Q_C04sel', 'R_q4' if quick else 'R_w2', recsB='R_q4' if quick else 'R_w2', maxA=2, maxB=2)
+    ec.run_family_js(run, 'js-join', 'Q_C04selQ' if quick else 'Q_C04selJS', 'R_q4' if quick else 'R_w2', recsB='R_q4' if quick else 'R_w2', maxA=2, maxB=2)
     ec.run_family_js(run, 'js-join-order', 'Q_C02joinok', 'R_2x2', recsB='R_2x2', maxA=1 if quick else 2, maxB=3)
     ec.run_family_js(run, 'js-join-pairs', 'Q_C04pairs', 'R_2x2', recsB='R_2x2', maxA=2, maxB=2, hdrmodes=(False, True))
     ec.run_family_js(run, 'js-update', 'Q_C05', 'R_2x2', maxA=2, hdrmodes=(False, True))
